@@ -286,7 +286,10 @@ struct HistGen {
         } else if (w == 4) {    // bad tweak length
             Op t = base(i, "set_tweak", true);
             int len = mant ? *rc::gen::element(0, 1, 4, 7, 9, 16, huge) : *rc::gen::element(0, bs + 1, 2 * bs, huge);
-            t.set("tweak", reuse_or(tweakpool, (size_t)std::min<long long>((unsigned)len, (long long)2 * bs), 40)).set("len", len);
+            // (a NULL tweak does not make an out-of-range length acceptable)
+            if (*chance(25)) t.setnull("tweak");
+            else t.set("tweak", reuse_or(tweakpool, (size_t)std::min<long long>((unsigned)len, (long long)2 * bs), 40));
+            t.set("len", len);
             p.push_back(t);
         } else if (w == 5) {    // bad counter length
             Op c = base(i, "set_counter", true);
